@@ -55,6 +55,43 @@ func c13ViewRootRefused(c *Ctx) {
 						}
 					}
 				}
+				// the mapping done in a shared package function whose result every caller hands to a prefix operation
+				if !isPrefix && call.Value != nil && f.Signature.Recv() == nil {
+					returned := false
+					for _, r := range returnsOf(f) {
+						for _, res := range r.Results {
+							if dependsOnValue(res, call.Value) {
+								returned = true
+							}
+						}
+					}
+					if returned {
+						nCallers, nPrefix := 0, 0
+						for _, g0 := range p.SSAFuncsOf([]*packages.Package{pk}) {
+							for _, g := range allSSAFuncs(g0) {
+								for _, gc := range callsIn(g) {
+									if gc.Call.StaticCallee() != f || gc.Value == nil {
+										continue
+									}
+									nCallers++
+									for _, other := range callsIn(g) {
+										if other.Call.IsInvoke() && (other.Call.Method.Name() == "Walk" || other.Call.Method.Name() == "DeleteAll") {
+											for _, a := range other.Call.Args {
+												if dependsOnValue(a, gc.Value) {
+													nPrefix++
+													break
+												}
+											}
+										}
+									}
+								}
+							}
+						}
+						if nCallers > 0 && nPrefix >= nCallers {
+							isPrefix = true
+						}
+					}
+				}
 				if isPrefix {
 					continue
 				}
